@@ -1,6 +1,7 @@
 package chainsim
 
 import (
+	"verif/sim/codecsim"
 	"bytes"
 	"context"
 	"crypto/sha256"
@@ -634,6 +635,69 @@ func (s *sim) checkAccessors(box *stateBox, where string) {
 	s.res.Stat("accessor_sweeps", 1)
 	bad := func(name string, got, want interface{}) {
 		s.viol("C15", "getter/"+name, fmt.Sprintf("%s (%s): getter returns %v, the encoded state holds %v", where, forkName(st), got, want))
+	}
+	// a historical batch view over this state's roots: the typed sub-views read the vector they name
+	{
+		hb := phase0.HistoricalBatch{BlockRoots: fieldOf(raw, "BlockRoots").(phase0.HistoricalBatchRoots), StateRoots: fieldOf(raw, "StateRoots").(phase0.HistoricalBatchRoots)}
+		var buf bytes.Buffer
+		if hb.Serialize(s.w.spec, codec.NewEncodingWriter(&buf)) == nil {
+			hv, err := phase0.AsHistoricalBatch(phase0.HistoricalBatchType(s.w.spec).Deserialize(codec.NewDecodingReader(bytes.NewReader(buf.Bytes()), uint64(buf.Len()))))
+			if err == nil {
+				bv, e1 := hv.BlockRoots()
+				sv, e2 := hv.StateRoots()
+				if e1 != nil || e2 != nil {
+					bad("HistoricalBatchView", fmt.Sprint(e1, e2), "no error")
+					return
+				}
+				for _, i := range []int{0, len(hb.BlockRoots) / 2, len(hb.BlockRoots) - 1} {
+					b, _ := bv.GetRoot(common.Slot(i))
+					t, _ := sv.GetRoot(common.Slot(i))
+					if b != hb.BlockRoots[i] || t != hb.StateRoots[i] {
+						bad(fmt.Sprintf("HistoricalBatchView[%d]", i), fmt.Sprint(b, t), fmt.Sprint(hb.BlockRoots[i], hb.StateRoots[i]))
+						return
+					}
+				}
+				s.res.Stat("setter_checks", 1)
+			}
+		}
+	}
+	// a fresh state view of this fork holds the default value of the fork's state type
+	if nm := map[int]func() common.BeaconState{
+		1: func() common.BeaconState { return altair.NewBeaconStateView(s.w.spec) },
+		2: func() common.BeaconState { return bellatrix.NewBeaconStateView(s.w.spec) },
+		3: func() common.BeaconState { return capella.NewBeaconStateView(s.w.spec) },
+		4: func() common.BeaconState { return deneb.NewBeaconStateView(s.w.spec) },
+		5: func() common.BeaconState { return electra.NewBeaconStateView(s.w.spec) },
+	}[forkIndexOfState(st)]; nm != nil && s.frng.Chance(1, 4) {
+		fresh := nm()
+		name := forkName(st) + ".BeaconState"
+		if want, ok := codecsim.DefaultRoot(s.w.spec, name); ok {
+			s.res.Stat("setter_checks", 1)
+			if got := fresh.HashTreeRoot(tree.GetHashFn()); got != want {
+				s.viol("C05", "state/new-view-default-root/"+forkName(st), fmt.Sprintf("%s: NewBeaconStateView has root %s, the default value of the specification's schema has root %s", name, got, want))
+				return
+			}
+		}
+	}
+	// activation predicates of the validator wrapper against the encoded fields
+	if fin, err := st.FinalizedCheckpoint(); err == nil {
+		if vals, err := st.Validators(); err == nil {
+			rv := fieldOf(raw, "Validators").(phase0.ValidatorRegistry)
+			for i := range rv {
+				v, err := vals.Validator(common.ValidatorIndex(i))
+				if err != nil {
+					break
+				}
+				q, _ := phase0.IsEligibleForActivationQueue(v, s.w.spec)
+				a, _ := phase0.IsEligibleForActivation(v, fin.Epoch)
+				wq := uint64(rv[i].ActivationEligibilityEpoch) == farFuture && rv[i].EffectiveBalance == s.w.spec.MAX_EFFECTIVE_BALANCE
+				wa := rv[i].ActivationEligibilityEpoch <= fin.Epoch && uint64(rv[i].ActivationEpoch) == farFuture
+				if q != wq || a != wa {
+					bad(fmt.Sprintf("Validators[%d] activation predicates", i), fmt.Sprint(q, a), fmt.Sprint(wq, wa))
+					return
+				}
+			}
+		}
 	}
 	// Raw(): the library's own flattening of the state is the encoded state
 	if rm := reflect.ValueOf(st).MethodByName("Raw"); rm.IsValid() && rm.Type().NumIn() == 1 {
